@@ -623,6 +623,19 @@ def _s_fresh_graph(eng, st, g):
     return Val(TBool, g.t >= eng.entry_next_gid)
 
 
+def _n_same_graph(a, b):
+    # an old() snapshot is a deep copy that remembers the object it was taken from
+    oa = getattr(a, '_pyvc_orig', a)
+    ob = getattr(b, '_pyvc_orig', b)
+    return oa is ob
+
+
+@spec('same_graph', _n_same_graph)
+def _s_same_graph(eng, st, a, b):
+    """Reference identity of two graphs (in a postcondition old(G) names the object G referred to at entry)."""
+    return Val(TBool, a.t == b.t)
+
+
 @spec('attr_unchanged', None)
 def _s_attr_unchanged(eng, st, g, n, k, old=None):
     if old is None:
